@@ -283,10 +283,26 @@ func newScript() *smtScript {
 	return &smtScript{declared: map[string]bool{}, boxes: map[Sort]bool{}, lits: map[string]string{}, opaque: map[Sort]bool{}}
 }
 
+// ensureSorts declares every opaque sort mentioned in a sort expression.
+func (s *smtScript) ensureSorts(sort string) {
+	for i := 0; i < len(sort); i++ {
+		if strings.HasPrefix(sort[i:], "|O:") {
+			j := strings.Index(sort[i+1:], "|")
+			if j < 0 {
+				return
+			}
+			name := sort[i+3 : i+1+j]
+			s.opaqueSort(name)
+			i += j + 1
+		}
+	}
+}
+
 func (s *smtScript) declare(name string, sort string) {
 	if s.declared[name] {
 		return
 	}
+	s.ensureSorts(sort)
 	s.declared[name] = true
 	if s.sorts == nil {
 		s.sorts = map[string]string{}
@@ -297,6 +313,10 @@ func (s *smtScript) declare(name string, sort string) {
 func (s *smtScript) declareFun(name string, args []string, ret string) {
 	if s.declared[name] {
 		return
+	}
+	s.ensureSorts(ret)
+	for _, a := range args {
+		s.ensureSorts(a)
 	}
 	s.declared[name] = true
 	s.decls = append(s.decls, fmt.Sprintf("(declare-fun %s (%s) %s)", name, strings.Join(args, " "), ret))
